@@ -18,6 +18,7 @@ from concurrent.futures import ThreadPoolExecutor
 HERE = os.path.dirname(os.path.dirname(os.path.abspath(__file__)))
 sys.path.insert(0, HERE)
 SEEDS: list = []
+OUT_OF_SCOPE: dict = {}  # seeded changes judged not to break the property as stated: run, reported, not expected to be caught
 
 
 def scratch_copy():
@@ -102,6 +103,8 @@ def main():
         meta = json.load(open(os.path.join(sd, "meta.json")))
         props = list(dict.fromkeys([meta.get("property", name[:3])] + meta.get("also_caught_by", [])))
         props = [p for p in props if not want or p in want]
+        if meta.get("out_of_scope"):
+            OUT_OF_SCOPE[("seeded/" + name)] = meta["out_of_scope"]
         def ap_fn(d, sd=sd):
             p = subprocess.run(["patch", "-s", "-p1", "-i", os.path.join(sd, "patch.diff")], cwd=d, capture_output=True, text=True)
             return None if p.returncode == 0 else (p.stdout + p.stderr)[-300:]
@@ -112,10 +115,11 @@ def main():
         for r in ex.map(one, jobs):
             rows.append(r)
             name, props, st, res, tests = r
-            line = f"{name:45s} tests={tests[:22]:22s} " + " ".join(f"{p}:rc={v[0]}{'' if v[0]==1 else ' <<< MISSED'}" for p, v in res.items()) + (" " + st if st != "ok" else "")
+            oos = name in OUT_OF_SCOPE
+            line = f"{name:45s} tests={tests[:22]:22s} " + " ".join(f"{p}:rc={v[0]}{'' if v[0]==1 else (' (out of scope: not expected)' if oos else ' <<< MISSED')}" for p, v in res.items()) + (" " + st if st != "ok" else "")
             print(line, flush=True)
-    caught = sum(1 for r in rows for p, v in r[3].items() if v[0] == 1)
-    total = sum(len(r[3]) for r in rows)
+    caught = sum(1 for r in rows for p, v in r[3].items() if v[0] == 1 and r[0] not in OUT_OF_SCOPE)
+    total = sum(len(r[3]) for r in rows if r[0] not in OUT_OF_SCOPE)
     print(f"caught {caught}/{total}")
     if not args.only and not args.props and not SEEDS:
         with open(os.path.join(HERE, "SELFTEST.md"), "w") as f:
@@ -123,6 +127,8 @@ def main():
             for name, props, st, res, tests in rows:
                 f.write(f"| {name} | {tests} | " + ", ".join(f"{p}: {v[0]}" for p, v in res.items()) + " | " + "; ".join(",".join(v[1][:4]) for v in res.values()) + " |\n")
             f.write(f"\ncaught {caught}/{total}\n")
+            for k, why in OUT_OF_SCOPE.items():
+                f.write(f"\n{k}: out of scope, not counted - {why}\n")
 
 
 if __name__ == "__main__":
